@@ -17,112 +17,106 @@ Record rxpacket := { rx_raw : list N; rx_radio : radio; rx_gw : gwctx; rx_ts : N
 Record umsg := { u_eui : N; u_ts : N; u_data : list N; u_gweui : N; u_radio : radio; u_addr : N }.
 Record dmsg := { m_eui : N; m_data : list N; m_port : N; m_ack : bool; m_created : N; m_sent : N; m_acktime : N; m_fcntup : N }.
 
-Record db := { devs : list device (* d_nonces unused in rows *); nonces : list (N * N);
-               inbox : list umsg; outbox : list dmsg; apps : list N }.
-
+(* Every statement the pipeline issues is keyed by a device EUI (devices by eui, nonces by
+   device_eui, both message tables by device_eui, the frame output buffer by EUI), so the
+   tables are kept grouped by device: one dstate per EUI, in order of first appearance
+   (= row order of lora_devices for devices created before anything else touched them). *)
 Inductive serr := SNotFound | SDuplicate | SInjected.
 
 Definition key_empty (k : list N) : bool := forallb (fun b => b =? 0) k.
 
-Definition nonces_of (d : db) (eui : N) : list N := map snd (filter (fun p => fst p =? eui) (nonces d)).
-Definition load (d : db) (r : device) : device :=
-  {| d_eui := d_eui r; d_addr := d_addr r; d_appkey := d_appkey r; d_appskey := d_appskey r; d_nwkskey := d_nwkskey r;
-     d_appeui := d_appeui r; d_state := d_state r; d_fup := d_fup r; d_fdn := d_fdn r; d_relaxed := d_relaxed r;
-     d_keywarn := d_keywarn r; d_nonces := nonces_of d (d_eui r) |}.
-
-(* GetDeviceByDevAddr / GetDeviceByEUI *)
-Definition get_by_devaddr (d : db) (a : N) : list device := map (load d) (filter (fun r => d_addr r =? a) (devs d)).
-Definition get_by_eui (d : db) (eui : N) : option device :=
-  match filter (fun r => d_eui r =? eui) (devs d) with r :: _ => Some (load d r) | [] => None end.
-Definition has_app (d : db) (eui : N) : bool := existsb (fun a => a =? eui) (apps d).
-
-Definition upd_devs (d : db) (f : device -> device) (eui : N) : db :=
-  {| devs := map (fun r => if d_eui r =? eui then f r else r) (devs d); nonces := nonces d; inbox := inbox d;
-     outbox := outbox d; apps := apps d |}.
-Definition has_dev (d : db) (eui : N) : bool := existsb (fun r => d_eui r =? eui) (devs d).
-
-(* UpdateDeviceState: fcnt_dn, fcnt_up, key_warning by eui *)
-Definition update_device_state (d : db) (dev : device) : db * option serr :=
-  if has_dev d (d_eui dev) then
-    (upd_devs d (fun r => {| d_eui := d_eui r; d_addr := d_addr r; d_appkey := d_appkey r; d_appskey := d_appskey r;
-                             d_nwkskey := d_nwkskey r; d_appeui := d_appeui r; d_state := d_state r;
-                             d_fup := d_fup dev; d_fdn := d_fdn dev; d_relaxed := d_relaxed r;
-                             d_keywarn := d_keywarn dev; d_nonces := [] |}) (d_eui dev), None)
-  else (d, Some SNotFound).
-(* UpdateDevice: everything but eui and application *)
-Definition update_device (d : db) (dev : device) : db * option serr :=
-  if has_dev d (d_eui dev) then
-    (upd_devs d (fun r => {| d_eui := d_eui r; d_addr := d_addr dev; d_appkey := d_appkey dev; d_appskey := d_appskey dev;
-                             d_nwkskey := d_nwkskey dev; d_appeui := d_appeui r; d_state := d_state dev;
-                             d_fup := d_fup dev; d_fdn := d_fdn dev; d_relaxed := d_relaxed dev;
-                             d_keywarn := d_keywarn dev; d_nonces := [] |}) (d_eui dev), None)
-  else (d, Some SNotFound).
-(* AddDevNonce: primary key (device_eui, nonce) *)
-Definition add_nonce (d : db) (eui nonce : N) : db * option serr :=
-  if existsb (fun p => (fst p =? eui) && (snd p =? nonce)) (nonces d) then (d, Some SDuplicate)
-  else ({| devs := devs d; nonces := nonces d ++ [(eui, nonce)]; inbox := inbox d; outbox := outbox d; apps := apps d |}, None).
-(* CreateUpstreamMessage: primary key (device_eui, time_stamp) *)
-Definition create_upstream (d : db) (m : umsg) : db * option serr :=
-  if existsb (fun x => (u_eui x =? u_eui m) && (u_ts x =? u_ts m)) (inbox d) then (d, Some SDuplicate)
-  else ({| devs := devs d; nonces := nonces d; inbox := inbox d ++ [m]; outbox := outbox d; apps := apps d |}, None).
-(* CreateDownstreamMessage: primary key (device_eui, created_time) *)
-Definition create_downstream (d : db) (m : dmsg) : db * option serr :=
-  if existsb (fun x => (m_eui x =? m_eui m) && (m_created x =? m_created m)) (outbox d) then (d, Some SDuplicate)
-  else ({| devs := devs d; nonces := nonces d; inbox := inbox d; outbox := outbox d ++ [m]; apps := apps d |}, None).
-
-Definition upd_outbox (d : db) (f : dmsg -> dmsg) (sel : dmsg -> bool) : db :=
-  {| devs := devs d; nonces := nonces d; inbox := inbox d; outbox := map (fun m => if sel m then f m else m) (outbox d); apps := apps d |}.
 Definition set_times (m : dmsg) (sent ackt fc : N) : dmsg :=
   {| m_eui := m_eui m; m_data := m_data m; m_port := m_port m; m_ack := m_ack m; m_created := m_created m;
      m_sent := sent; m_acktime := ackt; m_fcntup := fc |}.
-(* UpdateMessageAckTime: device, fcnt_up, sent_time > 0, ack_time = 0 *)
-Definition update_ack_time (d : db) (eui fc now : N) : db :=
-  upd_outbox d (fun m => set_times m (m_sent m) now (m_fcntup m))
-             (fun m => (m_eui m =? eui) && (m_fcntup m =? fc) && (0 <? m_sent m) && (m_acktime m =? 0)).
-(* ResetActiveAcks: sent_time > 0, ack_time = 0, ack = 1 *)
-Definition reset_active_acks (d : db) (eui : N) : db :=
-  upd_outbox d (fun m => set_times m 0 (m_acktime m) 0)
-             (fun m => (m_eui m =? eui) && (0 <? m_sent m) && (m_acktime m =? 0) && m_ack m).
-(* SetMessageSentTime by (device, created_time) *)
-Definition set_sent_time (d : db) (eui created now fc : N) : db :=
-  upd_outbox d (fun m => set_times m now (m_acktime m) fc) (fun m => (m_eui m =? eui) && (m_created m =? created)).
 
-(* ORDER BY created_time: stable insertion sort of the device's unsent rows *)
+(* ORDER BY created_time: stable insertion sort *)
 Fixpoint insert_by_created (m : dmsg) (l : list dmsg) : list dmsg :=
   match l with
   | [] => [m]
   | h :: t => if m_created m <? m_created h then m :: l else h :: insert_by_created m t
   end.
 Definition sort_by_created (l : list dmsg) : list dmsg := fold_right insert_by_created [] l.
-(* GetNextUnsentMessage *)
-Definition get_next_unsent (d : db) (eui : N) : option dmsg :=
-  match sort_by_created (filter (fun m => (m_eui m =? eui) && (m_sent m =? 0)) (outbox d)) with
-  | m :: _ => Some m | [] => None end.
 
 (* ---------------- FrameOutputBuffer ---------------- *)
 Record fout := { fo_mtype : N; fo_ack : bool; fo_port : N; fo_payload : list N; fo_ja : option joinacc }.
-Definition fbuf := list (N * fout).
 Definition new_fout (mt : N) : fout := {| fo_mtype := mt; fo_ack := false; fo_port := 0; fo_payload := []; fo_ja := None |}.
-Fixpoint fb_get (b : fbuf) (eui : N) : option fout :=
-  match b with [] => None | (e, f) :: t => if e =? eui then Some f else fb_get t eui end.
-Fixpoint fb_put (b : fbuf) (eui : N) (f : fout) : fbuf :=
-  match b with
-  | [] => [(eui, f)]
-  | (e, g) :: t => if e =? eui then (e, f) :: t else (e, g) :: fb_put t eui f
-  end.
-Definition fb_del (b : fbuf) (eui : N) : fbuf := filter (fun p => negb (fst p =? eui)) b.
 
-Definition fb_set_payload (b : fbuf) (eui : N) (payload : list N) (port : N) (ack : bool) : fbuf :=
-  let fd := match fb_get b eui with Some f => f | None => new_fout UnconfirmedDataDown end in
-  fb_put b eui {| fo_mtype := if ack then ConfirmedDataDown else UnconfirmedDataDown; fo_ack := fo_ack fd;
-                  fo_port := port; fo_payload := payload; fo_ja := fo_ja fd |}.
-Definition fb_set_ack_flag (b : fbuf) (eui : N) (flag : bool) : fbuf :=
-  let fd := match fb_get b eui with Some f => f | None => new_fout UnconfirmedDataDown end in
-  fb_put b eui {| fo_mtype := fo_mtype fd; fo_ack := flag; fo_port := fo_port fd; fo_payload := fo_payload fd; fo_ja := fo_ja fd |}.
-(* SetJoinAcceptPayload (the shadowed fd of the "not exists" branch ends in the same entry) *)
-Definition fb_set_join_accept (b : fbuf) (eui : N) (j : joinacc) : fbuf :=
-  let fd := match fb_get b eui with Some f => f | None => {| fo_mtype := 0; fo_ack := false; fo_port := 0; fo_payload := []; fo_ja := None |} end in
-  fb_put b eui {| fo_mtype := JoinAccept; fo_ack := fo_ack fd; fo_port := 0; fo_payload := fo_payload fd; fo_ja := Some j |}.
+(* one device's share of the store and of the frame output buffer *)
+Record dstate := { ds_row : option device; ds_nonces : list N; ds_inbox : list umsg; ds_outbox : list dmsg; ds_fb : option fout }.
+Definition empty_dstate : dstate := {| ds_row := None; ds_nonces := []; ds_inbox := []; ds_outbox := []; ds_fb := None |}.
+Definition with_row st r := {| ds_row := r; ds_nonces := ds_nonces st; ds_inbox := ds_inbox st; ds_outbox := ds_outbox st; ds_fb := ds_fb st |}.
+Definition with_nonces st n := {| ds_row := ds_row st; ds_nonces := n; ds_inbox := ds_inbox st; ds_outbox := ds_outbox st; ds_fb := ds_fb st |}.
+Definition with_inbox st i := {| ds_row := ds_row st; ds_nonces := ds_nonces st; ds_inbox := i; ds_outbox := ds_outbox st; ds_fb := ds_fb st |}.
+Definition with_outbox st o := {| ds_row := ds_row st; ds_nonces := ds_nonces st; ds_inbox := ds_inbox st; ds_outbox := o; ds_fb := ds_fb st |}.
+Definition with_fbe st f := {| ds_row := ds_row st; ds_nonces := ds_nonces st; ds_inbox := ds_inbox st; ds_outbox := ds_outbox st; ds_fb := f |}.
+
+(* the device as a read returns it: DevNonceHistory filled from the nonce table *)
+Definition load (st : dstate) (r : device) : device :=
+  {| d_eui := d_eui r; d_addr := d_addr r; d_appkey := d_appkey r; d_appskey := d_appskey r; d_nwkskey := d_nwkskey r;
+     d_appeui := d_appeui r; d_state := d_state r; d_fup := d_fup r; d_fdn := d_fdn r; d_relaxed := d_relaxed r;
+     d_keywarn := d_keywarn r; d_nonces := ds_nonces st |}.
+
+(* UpdateDeviceState: fcnt_dn, fcnt_up, key_warning *)
+Definition l_update_device_state (st : dstate) (dev : device) : dstate * option serr :=
+  match ds_row st with
+  | Some r => (with_row st (Some {| d_eui := d_eui r; d_addr := d_addr r; d_appkey := d_appkey r; d_appskey := d_appskey r;
+                                    d_nwkskey := d_nwkskey r; d_appeui := d_appeui r; d_state := d_state r;
+                                    d_fup := d_fup dev; d_fdn := d_fdn dev; d_relaxed := d_relaxed r;
+                                    d_keywarn := d_keywarn dev; d_nonces := [] |}), None)
+  | None => (st, Some SNotFound)
+  end.
+(* UpdateDevice: everything but eui and application *)
+Definition l_update_device (st : dstate) (dev : device) : dstate * option serr :=
+  match ds_row st with
+  | Some r => (with_row st (Some {| d_eui := d_eui r; d_addr := d_addr dev; d_appkey := d_appkey dev; d_appskey := d_appskey dev;
+                                    d_nwkskey := d_nwkskey dev; d_appeui := d_appeui r; d_state := d_state dev;
+                                    d_fup := d_fup dev; d_fdn := d_fdn dev; d_relaxed := d_relaxed dev;
+                                    d_keywarn := d_keywarn dev; d_nonces := [] |}), None)
+  | None => (st, Some SNotFound)
+  end.
+(* AddDevNonce: primary key (device_eui, nonce) *)
+Definition l_add_nonce (st : dstate) (nonce : N) : dstate * option serr :=
+  if existsb (fun n => n =? nonce) (ds_nonces st) then (st, Some SDuplicate)
+  else (with_nonces st (ds_nonces st ++ [nonce]), None).
+(* CreateUpstreamMessage: primary key (device_eui, time_stamp) *)
+Definition l_create_upstream (st : dstate) (m : umsg) : dstate * option serr :=
+  if existsb (fun x => u_ts x =? u_ts m) (ds_inbox st) then (st, Some SDuplicate)
+  else (with_inbox st (ds_inbox st ++ [m]), None).
+(* CreateDownstreamMessage: primary key (device_eui, created_time) *)
+Definition l_create_downstream (st : dstate) (m : dmsg) : dstate * option serr :=
+  if existsb (fun x => m_created x =? m_created m) (ds_outbox st) then (st, Some SDuplicate)
+  else (with_outbox st (ds_outbox st ++ [m]), None).
+
+Definition upd_outbox (st : dstate) (f : dmsg -> dmsg) (sel : dmsg -> bool) : dstate :=
+  with_outbox st (map (fun m => if sel m then f m else m) (ds_outbox st)).
+(* UpdateMessageAckTime: fcnt_up, sent_time > 0, ack_time = 0 *)
+Definition l_update_ack_time (st : dstate) (fc now : N) : dstate :=
+  upd_outbox st (fun m => set_times m (m_sent m) now (m_fcntup m))
+             (fun m => (m_fcntup m =? fc) && (0 <? m_sent m) && (m_acktime m =? 0)).
+(* ResetActiveAcks: sent_time > 0, ack_time = 0, ack = 1 *)
+Definition l_reset_active_acks (st : dstate) : dstate :=
+  upd_outbox st (fun m => set_times m 0 (m_acktime m) 0)
+             (fun m => (0 <? m_sent m) && (m_acktime m =? 0) && m_ack m).
+(* SetMessageSentTime by created_time *)
+Definition l_set_sent_time (st : dstate) (created now fc : N) : dstate :=
+  upd_outbox st (fun m => set_times m now (m_acktime m) fc) (fun m => m_created m =? created).
+(* GetNextUnsentMessage *)
+Definition l_get_next_unsent (st : dstate) : option dmsg :=
+  match sort_by_created (filter (fun m => m_sent m =? 0) (ds_outbox st)) with
+  | m :: _ => Some m | [] => None end.
+
+(* SetPayload / SetMessageAckFlag / SetJoinAcceptPayload on the device's buffer entry *)
+Definition l_set_payload (st : dstate) (payload : list N) (port : N) (ack : bool) : dstate :=
+  let fd := match ds_fb st with Some f => f | None => new_fout UnconfirmedDataDown end in
+  with_fbe st (Some {| fo_mtype := if ack then ConfirmedDataDown else UnconfirmedDataDown; fo_ack := fo_ack fd;
+                       fo_port := port; fo_payload := payload; fo_ja := fo_ja fd |}).
+Definition l_set_ack_flag (st : dstate) (flag : bool) : dstate :=
+  let fd := match ds_fb st with Some f => f | None => new_fout UnconfirmedDataDown end in
+  with_fbe st (Some {| fo_mtype := fo_mtype fd; fo_ack := flag; fo_port := fo_port fd; fo_payload := fo_payload fd; fo_ja := fo_ja fd |}).
+(* the shadowed fd of the "not exists" branch ends in the same entry *)
+Definition l_set_join_accept (st : dstate) (j : joinacc) : dstate :=
+  let fd := match ds_fb st with Some f => f | None => {| fo_mtype := 0; fo_ack := false; fo_port := 0; fo_payload := []; fo_ja := None |} end in
+  with_fbe st (Some {| fo_mtype := JoinAccept; fo_ack := fo_ack fd; fo_port := 0; fo_payload := fo_payload fd; fo_ja := Some j |}).
 
 (* EU868 MaximumPayload(dataRate): (M, N) *)
 Fixpoint assoc_str {A} (l : list (string * A)) (k : string) : option A :=
@@ -137,22 +131,22 @@ Definition max_without_fopts (mn : N * N) : N := if payload_withoutfopts_uses_M 
 Record phyout := { po_mtype : N; po_ack : bool; po_pending : bool; po_port : N; po_frm : list N; po_ja : option joinacc }.
 Inductive getres := GetNone | GetErr | GetOk (p : phyout).
 (* GetPHYPayloadForDevice *)
-Definition fb_get_phy (b : fbuf) (eui : N) (datr : string) : fbuf * getres :=
-  match fb_get b eui with
-  | None => (b, GetNone)
+Definition l_get_phy (st : dstate) (datr : string) : dstate * getres :=
+  match ds_fb st with
+  | None => (st, GetNone)
   | Some fd =>
     let plen := length (fo_payload fd) in
-    if (plen =? 0)%nat && negb (fo_mtype fd =? JoinAccept) && negb (fo_ack fd) then (fb_del b eui, GetNone)
+    if (plen =? 0)%nat && negb (fo_mtype fd =? JoinAccept) && negb (fo_ack fd) then (with_fbe st None, GetNone)
     else if (0 <? plen)%nat then
       match max_payload datr with
-      | None => (b, GetErr)
+      | None => (st, GetErr)
       | Some mn =>
         let mx := N.to_nat (max_without_fopts mn) in
         let '(now_, later) := if (mx <? plen)%nat then (firstn mx (fo_payload fd), skipn mx (fo_payload fd)) else (fo_payload fd, []) in
         let fd' := {| fo_mtype := if fo_mtype fd =? JoinAccept then UnconfirmedDataDown else fo_mtype fd;
                       fo_ack := false; fo_port := fo_port fd; fo_payload := later;
                       fo_ja := if fo_mtype fd =? JoinAccept then None else fo_ja fd |} in
-        (fb_put b eui fd',
+        (with_fbe st (Some fd'),
          GetOk {| po_mtype := fo_mtype fd; po_ack := fo_ack fd; po_pending := (0 <? length later)%nat;
                   po_port := fo_port fd; po_frm := now_; po_ja := fo_ja fd |})
       end
@@ -160,6 +154,22 @@ Definition fb_get_phy (b : fbuf) (eui : N) (datr : string) : fbuf * getres :=
       let fd' := {| fo_mtype := if fo_mtype fd =? JoinAccept then UnconfirmedDataDown else fo_mtype fd;
                     fo_ack := false; fo_port := fo_port fd; fo_payload := fo_payload fd;
                     fo_ja := if fo_mtype fd =? JoinAccept then None else fo_ja fd |} in
-      (fb_put b eui fd',
+      (with_fbe st (Some fd'),
        GetOk {| po_mtype := fo_mtype fd; po_ack := fo_ack fd; po_pending := false; po_port := fo_port fd; po_frm := []; po_ja := fo_ja fd |})
   end.
+
+(* ---------------- the whole store: device states by EUI ---------------- *)
+Definition dtab := list (N * dstate).
+Fixpoint dt_get (t : dtab) (eui : N) : dstate :=
+  match t with [] => empty_dstate | (e, st) :: r => if e =? eui then st else dt_get r eui end.
+Fixpoint dt_put (t : dtab) (eui : N) (st : dstate) : dtab :=
+  match t with
+  | [] => [(eui, st)]
+  | (e, x) :: r => if e =? eui then (e, st) :: r else (e, x) :: dt_put r eui st
+  end.
+(* GetDeviceByDevAddr: every device row with that address, with its nonces *)
+Definition dt_by_devaddr (t : dtab) (a : N) : list device :=
+  flat_map (fun p => match ds_row (snd p) with Some r => if d_addr r =? a then [load (snd p) r] else [] | None => [] end) t.
+(* GetDeviceByEUI *)
+Definition dt_by_eui (t : dtab) (eui : N) : option device :=
+  match ds_row (dt_get t eui) with Some r => Some (load (dt_get t eui) r) | None => None end.
